@@ -63,14 +63,14 @@ struct Case {
 struct Ctx<'a> {
     rep: &'a mut Reporter,
     case: &'a Case,
-    failed: bool,
+    failed: Vec<String>,
 }
 impl Ctx<'_> {
-    /// One oracle judgement; reports at most one violation per case.
+    /// One oracle judgement; reports at most one violation per failure kind and case.
     fn judge(&mut self, ok: bool, kind: &str, what: impl FnOnce() -> String) {
         self.rep.eval();
-        if !ok && !self.failed {
-            self.failed = true;
+        if !ok && !self.failed.iter().any(|k| k == kind) {
+            self.failed.push(kind.to_string());
             self.rep.violation(&format!("C31|{}|{kind}", self.case.family), &what(), json!(self.case));
         }
     }
@@ -92,7 +92,7 @@ fn check_case(rep: &mut Reporter, case: &Case) {
         rep.count(&format!("nontrivial/{}", case.family));
     }
     rep.sample(|| json!(case));
-    let mut cx = Ctx { rep, case, failed: false };
+    let mut cx = Ctx { rep, case, failed: vec![] };
     macro_rules! ran {
         ($e:expr) => {
             match $e {
@@ -337,7 +337,7 @@ pub fn run(args: &Args) {
 
     // (A) all partitions: for a few inputs per length n <= 6 every composition, without and with an empty
     // tick between chunks.
-    let inputs_per_len = args.budget(6, 40, 1);
+    let inputs_per_len = args.budget(20, 120, 1);
     let max_n = if args.tier == Tier::Miri { 3 } else { 6 };
     for fam in single {
         for n in 1..=max_n {
@@ -356,7 +356,7 @@ pub fn run(args: &Args) {
     // two inputs: every pair of compositions for |a| <= 4, |b| <= 3, b shifted by 0..2 ticks
     for na in 1..=4usize {
         for nb in 0..=3usize {
-            for _ in 0..args.budget(2, 12, 1) {
+            for _ in 0..args.budget(6, 40, 1) {
                 let a = gen_items(&mut rng, na, 1);
                 let b = gen_items(&mut rng, nb, 1);
                 for ca in hv_common::compositions(na) {
@@ -378,7 +378,7 @@ pub fn run(args: &Args) {
     }
     // (B) random partitions of longer inputs
     for fam in FAMILIES {
-        for _ in 0..args.budget(400, 8000, 3) {
+        for _ in 0..args.budget(3000, 60_000, 3) {
             let n = 5 + rng.below(26);
             let t = 2 + rng.below(9);
             let keys = 1 + rng.below(4) as i64;
@@ -405,7 +405,7 @@ pub fn run(args: &Args) {
         "Six sliced! programs (batch + two snapshots + state; atomic batch + atomic snapshot + state; keyed \
          batch + keyed snapshot; two batched inputs + optional snapshot + state_null buffer; bounded-value keyed \
          singleton batch; state_null optional) compiled by generate_embedded and driven slice by slice. (A) for \
-         6 (quick) / 40 (thorough) random inputs per length 1..6 with distinct values: every composition, without \
+         20 (quick) / 120 (thorough) random inputs per length 1..6 with distinct values: every composition, without \
          and with an empty tick between chunks; for the two-input program every pair of compositions (|a|<=4, \
          |b|<=3, b shifted 0-2 ticks). (B) random partitions of 5-30 items over 2-10 ticks. Each slice emits \
          what its hooks revealed; judged: batches partition the input in order (per key for keyed), snapshots \
